@@ -15,6 +15,8 @@ _floors = {
     "sameblock_class_seen:OracleVoting1:sendVote+finishVoting": (1, 4),
     "sameblock_class_seen:RefundableOracleLock1:deposit+refund": 1,
     "multi_in_real_chain:OracleVoting2:sendVote+finishVoting": (3, 20),
+    # thorough only: late termination of started votings (V12 and V9)
+    "late_termination_ok:OracleVoting2": (0, 2), "late_termination_ok:OracleVoting1": (0, 2),
 }
 # every contract type deployed (twin and real chain), >= 1 success and >= 1 failure per method group
 for k in _KINDS_V12 + _WASM:
@@ -82,7 +84,9 @@ SPEC = {
         "WASM: nodes run with cfg.IsDebug=true because the bundled test contracts import env.debug, which the Rust runtime only provides in debug mode (its output on fd 1 is discarded)",
         "the bundled binaries cannot reach a SUCCESSFUL sub-deployment on a chain: test-cases grants its sub-deployment 1e6 WASM gas while a deployment costs >= 3e6, and the "
         "shared-fungible-token wallet has no way to mint tokens; failing sub-deployments inside successful calls and successful cross-contract calls (sum_func -> inc_func -> callback) are covered",
-        "terminating a STARTED oracle voting needs > 30 000 blocks after the public phase; only the termination of abandoned pending votings (30 days of virtual time) is driven to success",
+        "terminating a STARTED oracle voting needs > 30 000 blocks after the public phase: the quick tier only drives the termination of abandoned pending votings "
+        "(30 days of virtual time) to success, the thorough tier adds a job that waits 30 359 empty blocks and terminates a finished and an unfinished voting (with a gas sweep over the payout loop)",
+        "go test -asan builds and links here (thorough tier, WASM slice): only the Go/cgo glue of the WASM binding is instrumented, the prebuilt Rust archive is not",
         "besides the bundled WASM contracts (none of which ever moves coins) a 216-byte hand-assembled module 'wasm:spender' (source in c15_contracts.go) forwards its arguments to the "
         "host's create_transfer_promise / burn, so that 'a contract can never send more than it holds' is exercised for WASM too",
         "the ERC-20 mini-model exempts transfers to oneself: the bundled contract credits them without debiting (contract semantics, not the node's)",
